@@ -39,7 +39,7 @@ def norm(s):
     return " ".join(s.replace("\u00a0", " ").split())
 
 
-WORDS = ["alpha", "beta", "R&D", "x<y", "a>b", "\"q\"", "it's", "&amp;", "&lt;", "<i>", "5", "ok.", "émigré", "—", "100%", "a;b", "#1",
+WORDS = ["I'd", "o'clock", "'em", "the", "'90s", "'cause", "alpha", "beta", "R&D", "x<y", "a>b", "\"q\"", "it's", "&amp;", "&lt;", "<i>", "5", "ok.", "émigré", "—", "100%", "a;b", "#1",
          "&apos;", "&quot;", "&nbsp;", "&#39;", "&#x27;", "&copy;", "&amp;lt;", "&gt", "AT&T;"]
 
 
@@ -51,7 +51,8 @@ def authored(rng):
             # (single blanks only: the serialisers below split and re-join the words of a line)
             lines.append(" ".join(samples.rich_line(rng, pipe_ok=False).split()))
         else:
-            lines.append(" ".join(rng.choice(WORDS) for _ in range(rng.choice([1, 2, 4]))))
+            # (now and then a long line: a producer may wrap it over a dozen source lines, one word each)
+            lines.append(" ".join(rng.choice(WORDS) for _ in range(rng.choice([1, 2, 4, 4, 13]))))
     return lines
 
 
